@@ -21,13 +21,13 @@ CHECKS = [
       "63 catalogue entries (one or more per documented rule) applied at first/middle/last applicable position of a random link of fresh conforming streams; in every mode where the rule is active a message of the rule's code family must exist at the offending offset (statistics file and stderr) and the exit status must be the configured -E value; purely stateful faults must leave check sanity silent.",
       "Existence oracle (cascades ignored); RDH0 faults not placed on the first RDH of the input; positions sampled per run (3 per entry quick, 180 thorough); 63 entries incl. explicit boundary values (trigger bits 15/26, detector-field bits 12/23, bc 0xdec, stave 48) and one entry per place where a packet can start."),
     C("C03", "exploration", CLI + " + in-process driver of the real InputScanner",
-      "G-frame streams with arbitrary header values: rows of view rdh / data view, rdh_stats, writer output and in-process (rdh, payload, offset) triples compared with an independent chain walk, over file/stdin x payload loaded/skipped x all filter kinds, counts around the 100-packet batch.",
+      "G-frame streams with arbitrary header values: rows of view rdh / data view, rdh_stats, writer output and in-process (rdh, payload, offset) triples compared with an independent chain walk, over file/stdin x payload loaded/skipped x all filter kinds, counts around the 100-packet batch. Backpressure cases: 30 000 packets while the consumer of the reader's batches (view, writer, analysis) is stalled 300-450 ms several times by an H1 schedule.",
       "Well-framed, recognised input with known system ids; sampled inputs."),
     C("C07", "exploration", CLI + ": every message decoded back against the input bytes",
-      "Every error message of runs on arbitrary / corrupted well-framed content: leading offset inside the input and at an RDH or word slot start, quoted 10 bytes equal to the bytes at the offset, `current:`/`previous:` rows equal to the decoded headers; all check modes, with filters, multi-link.",
+      "Every error message of runs on arbitrary / corrupted well-framed content: leading offset inside the input and at an RDH or word slot start, quoted 10 bytes equal to the bytes at the offset, `current:`/`previous:` rows equal to the decoded headers; all check modes, with filters, multi-link. Inputs include words of 0xFF in the middle of a payload and pages up to the 10 000-byte limit.",
       "Only inputs whose payload layout agrees with the header's data format (the others are finding D8)."),
     C("C08", "exploration", CLI + ": reference filter over the chain walk",
-      "Output bytes (file and stdout, from file and pipe) compared byte for byte with the reference filter for link/FEE/stave filters incl. absent values; union over all values partitions the input; output re-walked and re-filtered; Filter Stats count compared.",
+      "Output bytes (file and stdout, from file and pipe) compared byte for byte with the reference filter for link/FEE/stave filters incl. absent values; union over all values partitions the input; output re-walked and re-filtered; Filter Stats count compared. Near-alias identifiers (one bit inside / outside the compared field); one 70 000-packet case and one 1.2-million-packet case (> 2^20 matching packets) per run.",
       "Sampled streams; re-filtering only when the first matching packet is itself recognisable."),
     C("C09", "exploration", "in-process lockstep of the real FSM/validator with a table model of the documented diagram",
       "Breadth-first closure of the product (implementation state id via hook H3 x diagram state) over a 21-class word alphabet - complete for that alphabet: every transition taken, every (state, illegal word) pair must be reported at the word - then millions of random words in long histories.",
@@ -36,7 +36,7 @@ CHECKS = [
       "Per status word type all 256 identifiers x {zero, 72 single bits, 2556 bit pairs, all ones} (complete) plus millions of random bodies; data words 256 identifiers x lane masks.",
       "Reference predicates are my transcription of the bit layouts; 2^80 space sampled beyond the structured part.", "fp_inproc"),
     C("C14", "exploration", CLI + ": statistics vs independent counts",
-      "Statistics file (JSON and TOML) and report rows of 9 modes x filters compared with counts from the chain walk / generator ground truth (visited, matching, payload, links, FEE ids, versions, HBFs, layer/staves, 20 trigger counters, error totals and codes, ALPIDE flags).",
+      "Statistics file (JSON and TOML) and report rows of 9 modes x filters compared with counts from the chain walk / generator ground truth (visited, matching, payload, links, FEE ids, versions, HBFs, layer/staves, 20 trigger counters, error totals and codes, ALPIDE flags). One 140 000-packet / 17.7 MB-payload case (all counters > 2^16, bytes > 2^24) and one 4.35 GB pipe (bytes and positions > 2^32) per run.",
       "One system id per stream; no error cap / fatal input."),
     C("C19", "exploration", CLI + ": view rows decoded back; styled vs unstyled; checker classification in-process",
       "Every row of the three views compared with independent decoding of the bytes at its offset (RDH attributes, TDH/TDT/DDW flags), styled vs unstyled equality, and on conforming streams the shown word kind vs the kind assigned by the real cutter+FSM.",
@@ -45,10 +45,10 @@ CHECKS = [
       "Random bytes, structure-aware and byte-level mutants of generated streams and of the 18 shipped files, plus directed inputs for every panic site known to be reachable from input, through 9 modes x options x {file, pipe}: any terminating signal, panic text, exit status outside {0,1,N}, sanitizer report, logical no-progress state or CPU time beyond a bound proportional to the input size is a violation. Thorough: 150k executions of the exact shipped profile, 30k under ASan, 400 under memcheck, the unsafe sites under Miri.",
       "Sampled inputs; hang decided by /proc (threads asleep, no CPU progress), wall clock only triggers the inspection."),
     C("C05", "exploration", CLI + " under seeded schedule perturbation (hook H1), arrival orders measured with hook H2",
-      "Multi-link inputs with several errors at the same offset and > 20 errors, each run K times (12 quick / 80 thorough) under distinct perturbation schedules incl. stalled validators / stalled collector; stderr error order, stdout, statistics bytes and exit status must equal the unperturbed run. A case only counts if >= 3 distinct pre-sort arrival orders were observed.",
+      "Multi-link inputs with several errors at the same offset and > 20 errors, each run K times (12 quick / 80 thorough) under distinct perturbation schedules incl. stalled validators / stalled collector; stderr error order, stdout, statistics bytes and exit status must equal the unperturbed run. A case only counts if >= 3 distinct pre-sort arrival orders were observed. Stratified variants: input ending inside the last payload whose RDH also has errors, link filter + ignored -o on > 100 matching packets, storms of 6000 (with context) / 20 000 (muted) errors; stalls also of the statistics forwarder, analysis thread and reader.",
       "Perturbation only at the existing hand-off points; explores many, not all, interleavings."),
     C("C06", "exploration", CLI + " + in-process single-threaded pass: per-link normalised error lists compared across layouts",
-      "Multi-link streams (link ids 0..255 incl. ids aliasing modulo 16/32/128; in stave mode several FEE ids behind one link id) with 0..10 mutations: per-link error lists, normalised to (packet index in link, delta), compared between the stream as generated, two re-merges, the extracted single-link file, --filter-link/-fee/-its-stave runs and one sequential pass through a real LinkValidator.",
+      "Multi-link streams (link ids 0..255 incl. ids aliasing modulo 16/32/128; in stave mode several FEE ids behind one link id) with 0..10 mutations: per-link error lists, normalised to (packet index in link, delta), compared between the stream as generated, two re-merges, the extracted single-link file, --filter-link/-fee/-its-stave runs and one sequential pass through a real LinkValidator. Planted situations: unknown system id on non-first packets incl. global index 100k, over-padded payloads after split frames on several links, a link silent for 3700 packets inside one of its HBFs, > 100 consecutive ~9 kB pages; a fatal error on a stream whose offset chain is intact is a violation.",
       "Link / FEE identifiers are not mutated; extracted files only compared when recognised by the start-up gate."),
     C("C10", "exploration", "in-process bit-flip sweep of the real RDH validators + " + CLI + " on RDH-only files, against a reference model of the documented rules",
       "In-process: every single-bit deviation of all 512 header bits at 5 positions of conforming sequences x both validator configurations, boundary values, random walks; CLI: RDH-only files with injected faults in 4 modes: the sets of offsets with [E10] / [E11] must equal the reference model's.",
@@ -60,14 +60,14 @@ CHECKS = [
       "Frames for all barrels with legal / illegal lane sets, chip lists (ids, bunch counters, flags, empty frames, no chip, FATAL announcement), split over words and pages: frame-level codes at the frame start, lanes listed, inner codes and alpide_stats must equal the reference verdict; each stream encoded twice with different (also header-like) hit bytes must give identical verdicts and counters.",
       "Reference verdict is my transcription of doc/checks_list.md; known finding D9 (announcing frame rejected)."),
     C("C15", "fault_enumeration", CLI + ": round trip, then leaf-by-leaf perturbation of the written statistics file",
-      "Statistics file (JSON/TOML, +-m; check modes, views and filtered output; half of the runs write over an existing longer file) written by a run must be accepted by an identical run; every leaf that the run collects, perturbed one at a time (all leaves in thorough, 40 sampled per file in quick), must be reported as a mismatch with the any-errors exit status; a changed input with the old file must be reported iff its own statistics differ.",
+      "Statistics file (JSON/TOML, +-m; check modes, views and filtered output; half of the runs write over an existing longer file) written by a run must be accepted by an identical run; every leaf that the run collects, perturbed one at a time (all leaves in thorough, 40 sampled per file in quick), must be reported as a mismatch with the any-errors exit status; a changed input with the old file must be reported iff its own statistics differ. Storm cases: > 100 000 messages from 4 links (files of tens of MB) round-trip, drift of a late message detected.",
       "Perturbed files stay well-typed."),
     C("C16", "exploration", CLI + ": exit status / accounting contract table",
-      "Contract table (clean, k errors, mid-stream fatal, custom-check failure, statistics mismatch also muted, missing / empty / short / non-ALICE input, 10 invalid option combinations, statistics extension differing in case) x N values; totals in report = statistics = displayed; -m, -w (leading code, prefixes of other codes), -e, -e together with -w.",
+      "Contract table (clean, k errors, mid-stream fatal, custom-check failure, statistics mismatch also muted, missing / empty / short / non-ALICE input, 16 invalid option combinations (all of them in every such case), views / filtered writing with non-fatal errors, storms of 3000..20000 errors (cap 1025..5000, fatal error behind them), statistics extension differing in case) x N values; totals in report = statistics = displayed; -m, -w (leading code, prefixes of other codes), -e, -e together with -w.",
       "Sampled configurations."),
     C("C17", "fault_enumeration", "process monitor (/proc) + schedule perturbation (H1): stop conditions at logical instants",
-      "SIGINT/SIGTERM after chunk k of the input or n bytes of output, stdout closed after n bytes (views, filtered data, -S stdout), error cap, fatal framing error at packet i with stalled threads / full queues: the process must exit (no-progress criterion for deadlocks, CPU-time bound for busy loops), not by signal, without panic, status in {0,1,N}; scenarios include an ignored -o next to a check/view on a 16 000-packet link and 20 000 packets of filtered data to a closed stdout; a partial -o file must be a whole-packet prefix of the expected output.",
-      "Single stop signal, delivered once the tool has installed its handler (SigCgt); upstream keeps delivering or closes; thorough tier on the exact shipped profile."),
+      "SIGINT/SIGTERM after chunk k of the input or n bytes of output, stdout closed after n bytes (views, filtered data, -S stdout), error cap, fatal framing error at packet i with stalled threads / full queues: the process must exit (no-progress criterion for deadlocks, CPU-time bound for busy loops), not by signal, without panic, status in {0,1,N}; scenarios include an ignored -o next to a check/view on a 16 000-packet link and 20 000 packets of filtered data to a closed stdout; a partial -o file must be a whole-packet prefix of the expected output. A pipe producer that goes quiet for 0.7-1.6 s after the signal / at a random chunk; 700 ms stalls; fatal error in packet 0; scale cases: a 640 000-packet pipe must be cut short (not consumed completely) by cap values 65..4097 and by an early closed stdout.",
+      "Single stop signal, delivered once the tool has installed its handler (SigCgt); upstream eventually delivers or closes (it may go quiet for up to 1.6 s); thorough tier on the exact shipped profile."),
     C("C18", "fault_enumeration", CLI + ": metamorphic prefix vs full run over enumerated cut positions",
       "Cut at every structural boundary +-1 (quick) / every byte of small streams (thorough) x 5 modes x {file, pipe} x optional filter: normal termination, and findings (messages / view rows) located in complete packets identical to the untruncated run's.",
       "Frame messages whose frame ends in the incomplete packet are excluded."),
